@@ -54,6 +54,9 @@ func (fr *Frame) callValue(in ssa.CallInstruction, c *ssa.CallCommon, fv Val, ar
 					cenv.vars[fmt.Sprintf("arg%d", i)] = TV{V: args[i], T: a.Type()}
 				}
 			}
+			if co := ex.addOblig("cover", "site."+site, ex.prog.pos(in.Pos()), mkNot(fr.cur), "the call site carrying assertions is reachable"); co != nil {
+				co.ExpectSat = true
+			}
 			for _, cl := range cls {
 				g := fr.evalClause(cenv, cl)
 				ex.addOblig("assert@", site+":"+cl.Label, ex.prog.pos(in.Pos()), mkImp(fr.cur, g), cl.Src)
@@ -553,6 +556,11 @@ func (fr *Frame) applyContract(in ssa.CallInstruction, key string, fc *FuncContr
 	site := fmt.Sprintf("%s#%d", key, ord)
 	// requires
 	if fr.top || true {
+		if len(fc.Requires) > 0 && fr.top && fc.Kind == "func" {
+			if co := ex.addOblig("cover", "call."+site, ex.prog.pos(in.Pos()), mkNot(fr.cur), "the contracted call is reachable"); co != nil {
+				co.ExpectSat = true
+			}
+		}
 		for _, c := range fc.Requires {
 			g := fr.evalClause(env, c)
 			lab := fmt.Sprintf("%s:%s", site, c.Label)
@@ -758,6 +766,17 @@ func (fr *Frame) inline(in ssa.CallInstruction, fn *ssa.Function, args []Val, bi
 		}
 	}
 	ex.inlined[fn.RelString(ex.prog.SSA.Pkg)] = true
+	// Waiting on a future: the goroutine that answers it fills in the future's
+	// other fields first, so every field of the future object is unknown afterwards.
+	if fn.RelString(ex.prog.SSA.Pkg) == "(*deferError).Error" && len(args) == 1 && args[0].K == VPtr && args[0].P.Root == "obj" && args[0].P.Path != "" {
+		root := &Ptr{Root: "obj", Base: args[0].P.Base, Ref: args[0].P.Ref, Elem: args[0].P.Base}
+		if _, isStruct := root.Base.Underlying().(*types.Struct); isStruct {
+			ex.abstr["waiting on a future ("+typeKey(root.Base)+".Error): all fields of the future are havocked (filled in by the answering goroutine)"] = true
+			v, facts := ex.freshVal(fr.st, root.Base, "future."+typeKey(root.Base))
+			ex.store(fr.st, root, root.Base, v)
+			fr.assumeAll(facts)
+		}
+	}
 	nf := ex.newFrame(fn, fr)
 	if len(nf.loops) > 0 {
 		// loops of an inlined callee are over-approximated: everything they write is havocked
